@@ -70,8 +70,8 @@ pub struct DirScript {
     /// first `argument` payload bytes
     #[serde(default)]
     pub ws_ops: Vec<(u64, u8, u64)>,
-    /// every connection after the first gets, in this direction, the bytes the *first* connection carried in this direction
-    /// (sent when its own first bytes arrive, cut at `cuts`); its own bytes are dropped
+    /// the first connection's bytes of this direction are withheld from their receiver; every later connection gets them
+    /// instead of its own (sent when its own first bytes arrive, cut at `cuts`); its own bytes are dropped
     #[serde(default)]
     pub splice_first_conn: bool,
     /// TLS carrier: the link node terminates TLS on both of its sockets (it holds the simulated certificate's key) and
@@ -192,6 +192,12 @@ where
             let mut o = rec.lock().unwrap();
             let v = if is_c2s { &mut o.c2s } else { &mut o.s2c };
             v[conn].extend_from_slice(&buf[..n]);
+        }
+        if script.splice_first_conn && conn == 0 {
+            // the first connection's bytes of this direction are held back (their receiver never sees them: a stream it has
+            // already seen would be refused as a replay, which is another rule)
+            base += n as u64;
+            continue;
         }
         if script.splice_first_conn && conn >= 1 {
             if base == 0 {
